@@ -33,6 +33,12 @@ pub enum EOp {
     GrowBody(u8),
     /// rewrite small i32 constants of the first local function with a `VisitorMut`
     BumpConsts,
+    /// one more (global) import that carries the field name of the newest import this history
+    /// added, under another module name
+    AddImportSameField,
+    /// remove the newest import this history added through `imports.remove(module, field)` and
+    /// delete the (unreferenced) entity it brought in
+    RemoveNewestAddedImport,
 }
 
 pub fn all_ops() -> Vec<EOp> {
@@ -56,7 +62,7 @@ pub fn all_ops() -> Vec<EOp> {
     for k in 0..3 {
         v.push(EOp::AddGlobal(k));
     }
-    for k in 0..2 {
+    for k in 0..3 {
         v.push(EOp::AddData(k));
     }
     for k in 0..3 {
@@ -74,12 +80,14 @@ pub fn all_ops() -> Vec<EOp> {
     v.push(EOp::GrowBody(0));
     v.push(EOp::GrowBody(1));
     v.push(EOp::BumpConsts);
+    v.push(EOp::AddImportSameField);
+    v.push(EOp::RemoveNewestAddedImport);
     v
 }
 
 /// operations that only add something
 fn additive(op: &EOp) -> bool {
-    matches!(op, EOp::AddFunc(..) | EOp::ExportNewestFunc | EOp::ExportFirst(_) | EOp::AddImport(_) | EOp::AddGlobal(_) | EOp::AddData(_) | EOp::AddElem(_))
+    matches!(op, EOp::AddFunc(..) | EOp::ExportNewestFunc | EOp::ExportFirst(_) | EOp::AddImport(_) | EOp::AddGlobal(_) | EOp::AddData(_) | EOp::AddElem(_) | EOp::AddImportSameField)
 }
 
 /// operations that use nothing beyond the MVP when applied to a module that has one memory and one
@@ -96,8 +104,81 @@ fn mvp_safe(op: &EOp, has_mem_and_table: bool) -> bool {
     }
 }
 
+/// operations that need no proposal of their own: the edited module must not need more than the
+/// module they were applied to (bases whose name starts with "neutral:")
+fn feature_neutral(op: &EOp) -> bool {
+    match op {
+        EOp::AddFunc(s, b) => *s <= 2 && matches!(b, 0 | 1 | 2 | 3),
+        EOp::ExportNewestFunc | EOp::DeleteFirstExport | EOp::DeleteNewestUnreferenced | EOp::ReplaceImported(_) | EOp::ReplaceExported(_) | EOp::SetStart | EOp::ClearStart | EOp::Gc | EOp::GrowBody(_) | EOp::BumpConsts => true,
+        _ => false,
+    }
+}
+
+/// does the binary hold a declared element segment that declares nothing that needs declaring?
+/// (a function needs a declaration when some body takes `ref.func` of it and neither an export,
+/// another segment nor a global initialiser mentions it). A *necessary* declared segment is the
+/// only way to keep such a module valid, whatever proposal flag the validator files it under.
+fn has_unnecessary_declared_segment(wasm: &[u8]) -> bool {
+    let w = match wmodel::decode(wasm) {
+        Ok(w) => w,
+        Err(_) => return false,
+    };
+    let mut ref_targets = std::collections::HashSet::new();
+    for f in &w.funcs {
+        if let Some(b) = &f.body {
+            for (op, _) in &b.ops {
+                if op.name == "RefFunc" {
+                    if let Some(wmodel::Imm::Func(i)) = op.imms.first() {
+                        ref_targets.insert(*i);
+                    }
+                }
+            }
+        }
+    }
+    let items = |e: &wmodel::Elem| -> Vec<u32> { wmodel::iso::norm_items(&e.items).into_iter().filter_map(|i| if let wmodel::iso::Item::Func(f) = i { Some(f) } else { None }).collect() };
+    for (k, e) in w.elems.iter().enumerate() {
+        if e.mode != wmodel::ElemMode::Declared {
+            continue;
+        }
+        let needed = items(e).into_iter().any(|f| {
+            ref_targets.contains(&f)
+                && !w.exports.iter().any(|x| x.space == wmodel::Space::Func && x.index == f)
+                && !w.elems.iter().enumerate().any(|(j, o)| j != k && items(o).contains(&f))
+                && !w.globals.iter().any(|g| g.init.as_ref().map(|ops| ops.iter().any(|o| o.name == "RefFunc" && o.imms.first() == Some(&wmodel::Imm::Func(f)))).unwrap_or(false))
+        });
+        if !needed {
+            return true;
+        }
+    }
+    false
+}
+
+/// the proposals a binary cannot do without: those whose removal from the full set makes it invalid
+fn required_features(wasm: &[u8]) -> u16 {
+    let mut req = 0u16;
+    for bit in 0..12u16 {
+        if wmodel::validate214(wasm, wmodel::FeatureSet(0xfff & !(1 << bit))).is_err() {
+            req |= 1 << bit;
+        }
+    }
+    req
+}
+
 pub fn mvp_bases() -> Vec<(String, Vec<u8>)> {
     vec![
+        (
+            // needs reference types and nothing else; $loc is exported twice and is a ref.func target
+            "neutral:reference-types-only".into(),
+            wgen::stateful::assemble(
+                r#"(module (import "env" "h" (func $h)) (func $loc (export "a") (export "b") (call $h)) (func (export "rf") (result i32) (ref.is_null (ref.func $loc))) (func (export "c") (call $loc)))"#,
+            )
+            .unwrap(),
+        ),
+        (
+            // needs multi-value only
+            "neutral:multi-value-only".into(),
+            wgen::stateful::assemble(r#"(module (func $two (export "two") (export "two2") (result i32 i32) (i32.const 1) (i32.const 2)) (func (export "use") (result i32) (call $two) (i32.add)))"#).unwrap(),
+        ),
         ("mvp:empty".into(), b"\0asm\x01\0\0\0".to_vec()),
         (
             "mvp:one-of-everything".into(),
@@ -165,6 +246,92 @@ fn only_block_type_encoding_differs(a: &[u8], b: &[u8]) -> bool {
     seen
 }
 
+/// is the entity that an added import brought in referred to by anything in the module (an
+/// export, the start, a segment, a global initialiser, an instruction)?  Removing the import of
+/// something that is still used would be an ill-formed edit.
+fn referenced(m: &Module, ent: AddedImport) -> bool {
+    struct Finder {
+        ent: AddedImport,
+        found: bool,
+    }
+    impl<'i> ir::Visitor<'i> for Finder {
+        fn visit_function_id(&mut self, x: &FunctionId) {
+            self.found |= matches!(self.ent, AddedImport::F(f) if f == *x);
+        }
+        fn visit_global_id(&mut self, x: &GlobalId) {
+            self.found |= matches!(self.ent, AddedImport::G(g) if g == *x);
+        }
+        fn visit_table_id(&mut self, x: &TableId) {
+            self.found |= matches!(self.ent, AddedImport::T(t) if t == *x);
+        }
+        fn visit_memory_id(&mut self, x: &MemoryId) {
+            self.found |= matches!(self.ent, AddedImport::M(mm) if mm == *x);
+        }
+    }
+    let in_expr = |e: &ConstExpr| match (e, ent) {
+        (ConstExpr::Global(g), AddedImport::G(x)) => *g == x,
+        (ConstExpr::RefFunc(f), AddedImport::F(x)) => *f == x,
+        _ => false,
+    };
+    if m.exports.iter().any(|e| match (e.item, ent) {
+        (ExportItem::Function(a), AddedImport::F(b)) => a == b,
+        (ExportItem::Global(a), AddedImport::G(b)) => a == b,
+        (ExportItem::Table(a), AddedImport::T(b)) => a == b,
+        (ExportItem::Memory(a), AddedImport::M(b)) => a == b,
+        _ => false,
+    }) {
+        return true;
+    }
+    if let (Some(s), AddedImport::F(f)) = (m.start, ent) {
+        if s == f {
+            return true;
+        }
+    }
+    for e in m.elements.iter() {
+        if let ElementKind::Active { table, offset } = &e.kind {
+            if matches!(ent, AddedImport::T(t) if t == *table) || in_expr(offset) {
+                return true;
+            }
+        }
+        match &e.items {
+            ElementItems::Functions(fs) => {
+                if let AddedImport::F(f) = ent {
+                    if fs.contains(&f) {
+                        return true;
+                    }
+                }
+            }
+            ElementItems::Expressions(_, es) => {
+                if es.iter().any(in_expr) {
+                    return true;
+                }
+            }
+        }
+    }
+    for d in m.data.iter() {
+        if let DataKind::Active { memory, offset } = &d.kind {
+            if matches!(ent, AddedImport::M(mm) if mm == *memory) || in_expr(offset) {
+                return true;
+            }
+        }
+    }
+    for g in m.globals.iter() {
+        if let GlobalKind::Local(e) = &g.kind {
+            if in_expr(e) {
+                return true;
+            }
+        }
+    }
+    let mut finder = Finder { ent, found: false };
+    for (_, f) in m.funcs.iter_local() {
+        ir::dfs_in_order(&mut finder, f, f.entry_block());
+        if finder.found {
+            return true;
+        }
+    }
+    false
+}
+
 struct Bump;
 impl walrus::ir::VisitorMut for Bump {
     fn visit_const_mut(&mut self, c: &mut walrus::ir::Const) {
@@ -194,6 +361,18 @@ pub struct EObj {
     /// entities added by this history that nothing refers to yet (safe to delete)
     unreferenced: Vec<Added>,
     newest_func: Option<FunctionId>,
+    /// imports this history added and has not removed again: (module, field, kind 0..3, entity)
+    added_imports: Vec<(String, String, u8, AddedImport)>,
+    /// what the model noticed while applying operations (reported by the C04 oracle)
+    noticed: Vec<Finding>,
+}
+
+#[derive(Clone, Copy, Debug)]
+enum AddedImport {
+    F(FunctionId),
+    G(GlobalId),
+    T(TableId),
+    M(MemoryId),
 }
 
 pub struct EditSubject<'a> {
@@ -203,6 +382,8 @@ pub struct EditSubject<'a> {
     pub oracle: &'static str,
     /// the unedited output, decoded, and the entity counts of the freshly parsed module (C04)
     plain: Option<(wmodel::WModule, [usize; 6])>,
+    /// C20: a base for the feature-neutral oracle
+    pub neutral: bool,
 }
 
 impl<'a> EditSubject<'a> {
@@ -218,7 +399,7 @@ impl<'a> EditSubject<'a> {
                 }
             }
         }
-        EditSubject { wasm, oracle, plain }
+        EditSubject { wasm, oracle, plain, neutral: false }
     }
     /// the history replayed with one extra (discarded) emit before operation `at`
     fn with_emit_at(&self, hist: &[EOp], at: usize) -> Result<Vec<u8>, String> {
@@ -399,18 +580,22 @@ fn apply_op(o: &mut EObj, op: &EOp) {
                 let ty = m.types.add(&[ValType::I32], &[]);
                 let (f, _) = m.add_import_func("edit", &format!("f{}", k), ty);
                 m.funcs.get_mut(f).name = Some(format!("edit_if{}", k));
+                o.added_imports.push(("edit".into(), format!("f{}", k), 0, AddedImport::F(f)));
             }
             1 => {
                 let (g, _) = m.add_import_global("edit", &format!("g{}", k), ValType::I32, false, false);
                 m.globals.get_mut(g).name = Some(format!("edit_ig{}", k));
+                o.added_imports.push(("edit".into(), format!("g{}", k), 3, AddedImport::G(g)));
             }
             2 => {
                 let (t, _) = m.add_import_table("edit", &format!("t{}", k), false, 1, None, RefType::Funcref);
                 m.tables.get_mut(t).name = Some(format!("edit_it{}", k));
+                o.added_imports.push(("edit".into(), format!("t{}", k), 1, AddedImport::T(t)));
             }
             _ => {
                 let (mm, _) = m.add_import_memory("edit", &format!("m{}", k), false, false, 1, None, None);
                 m.memories.get_mut(mm).name = Some(format!("edit_im{}", k));
+                o.added_imports.push(("edit".into(), format!("m{}", k), 2, AddedImport::M(mm)));
             }
         },
         EOp::AddGlobal(kind) => {
@@ -441,7 +626,11 @@ fn apply_op(o: &mut EObj, op: &EOp) {
             } else {
                 let mem = mem.unwrap();
                 let id = m.data.add(DataKind::Active { memory: mem, offset: ConstExpr::Value(Value::I32(0)) }, vec![k as u8; 2]);
-                m.memories.get_mut(mem).data_segments.insert(id);
+                // kind 1 also records the segment in the memory's own list, kind 2 only adds it
+                // (`ModuleData::add` asks for nothing more)
+                if kind == 1 {
+                    m.memories.get_mut(mem).data_segments.insert(id);
+                }
             }
         }
         EOp::AddElem(kind) => {
@@ -542,6 +731,64 @@ fn apply_op(o: &mut EObj, op: &EOp) {
             }
         }
         EOp::ClearStart => m.start = None,
+        EOp::AddImportSameField => {
+            let field = o.added_imports.iter().rev().find(|x| x.0 == "edit").map(|x| x.1.clone());
+            if let Some(field) = field {
+                if !o.added_imports.iter().any(|x| x.0 == "edit2" && x.1 == field) {
+                    let (g, _) = m.add_import_global("edit2", &field, ValType::I64, false, false);
+                    o.added_imports.push(("edit2".into(), field, 3, AddedImport::G(g)));
+                }
+            }
+        }
+        EOp::RemoveNewestAddedImport => {
+            // only an import whose entity nothing refers to (yet) may go
+            let removable = o.added_imports.last().map(|x| !referenced(m, x.3) && match x.3 {
+                AddedImport::F(f) => matches!(m.funcs.get(f).kind, FunctionKind::Import(_)),
+                _ => true,
+            }).unwrap_or(false);
+            if !removable {
+                return;
+            }
+            if let Some((module, field, _, ent)) = o.added_imports.pop() {
+                let before: Vec<(String, String)> = m.imports.iter().map(|i| (i.module.clone(), i.name.clone())).collect();
+                let _ = m.imports.remove(&module, &field);
+                let after: Vec<(String, String)> = m.imports.iter().map(|i| (i.module.clone(), i.name.clone())).collect();
+                // exactly the requested (module, field) entry - the last one added under it - is gone
+                let mut want = before.clone();
+                if let Some(p) = want.iter().rposition(|x| x.0 == module && x.1 == field) {
+                    want.remove(p);
+                }
+                if after != want {
+                    o.noticed.push(Finding {
+                        sig: "imports-remove-took-another-entry".into(),
+                        detail: format!("imports.remove({:?}, {:?}) turned the import list {:?} into {:?}", module, field, before, after),
+                    });
+                }
+                // the entity the import brought in is unreferenced (nothing in this model refers to added imports)
+                match ent {
+                    AddedImport::F(f) => {
+                        if m.funcs.iter().any(|x| x.id() == f) {
+                            m.funcs.delete(f)
+                        }
+                    }
+                    AddedImport::G(g) => {
+                        if m.globals.iter().any(|x| x.id() == g) {
+                            m.globals.delete(g)
+                        }
+                    }
+                    AddedImport::T(t) => {
+                        if m.tables.iter().any(|x| x.id() == t) {
+                            m.tables.delete(t)
+                        }
+                    }
+                    AddedImport::M(mm) => {
+                        if m.memories.iter().any(|x| x.id() == mm) {
+                            m.memories.delete(mm)
+                        }
+                    }
+                }
+            }
+        }
         EOp::GrowBody(which) => {
             let ids: Vec<FunctionId> = m.funcs.iter_local().map(|(id, _)| id).collect();
             let id = if which == 0 { ids.first().copied() } else { ids.last().copied() };
@@ -567,6 +814,7 @@ fn apply_op(o: &mut EObj, op: &EOp) {
             walrus::passes::gc::run(m);
             // gc may have deleted what this history added
             o.unreferenced.clear();
+            o.added_imports.clear();
             if let Some(f) = o.newest_func {
                 if !m.funcs.iter().any(|x| x.id() == f) {
                     o.newest_func = None;
@@ -580,9 +828,12 @@ impl<'a> Subject for EditSubject<'a> {
     type Op = EOp;
     type Obj = EObj;
     fn fresh(&self) -> Result<EObj, String> {
-        parse(self.wasm, &Cfg::default()).map(|m| EObj { m, serial: 0, unreferenced: vec![], newest_func: None }).map_err(|f| f.detail())
+        parse(self.wasm, &Cfg::default()).map(|m| EObj { m, serial: 0, unreferenced: vec![], newest_func: None, added_imports: vec![], noticed: vec![] }).map_err(|f| f.detail())
     }
     fn ops(&self, _h: &[EOp]) -> Vec<EOp> {
+        if self.oracle == "C20" && self.neutral {
+            return all_ops().into_iter().filter(feature_neutral).collect();
+        }
         if self.oracle == "C20" {
             let has = self.wasm.len() > 8;
             return all_ops().into_iter().filter(|op| mvp_safe(op, has)).collect();
@@ -595,6 +846,11 @@ impl<'a> Subject for EditSubject<'a> {
     }
     fn observe(&self, mut o: EObj, hist: &[EOp]) -> (u64, Vec<Finding>) {
         let mut fs = vec![];
+        if self.oracle == "C04" && !o.noticed.is_empty() {
+            // the model saw an edit do something else than asked: report it before anything can
+            // go wrong while emitting the now inconsistent module
+            return (wmodel::fnv(format!("{:?}", hist).as_bytes()), std::mem::take(&mut o.noticed));
+        }
         let out = o.m.emit_wasm();
         if self.oracle == "C08" {
             let e2 = o.m.emit_wasm();
@@ -631,6 +887,29 @@ impl<'a> Subject for EditSubject<'a> {
             return (wmodel::fnv(&out), fs);
         }
         if self.oracle == "C04" {
+            fs.append(&mut o.noticed);
+            // the import list: the input's imports followed by exactly the imports this history
+            // added and did not remove again, in that order (no gc in the history)
+            if let (Some((plain, _)), true) = (&self.plain, hist.iter().all(|op| additive(op) || *op == EOp::RemoveNewestAddedImport)) {
+                if let Ok(edited) = wmodel::decode(&out) {
+                    let kind = |k: &wmodel::ImportKind| match k {
+                        wmodel::ImportKind::Func(_) => 0u8,
+                        wmodel::ImportKind::Table(_) => 1,
+                        wmodel::ImportKind::Memory(_) => 2,
+                        wmodel::ImportKind::Global(_) => 3,
+                        _ => 4,
+                    };
+                    let mut want: Vec<(String, String, u8)> = plain.imports.iter().map(|i| (i.module.clone(), i.name.clone(), kind(&i.kind))).collect();
+                    want.extend(o.added_imports.iter().map(|x| (x.0.clone(), x.1.clone(), x.2)));
+                    let got: Vec<(String, String, u8)> = edited.imports.iter().map(|i| (i.module.clone(), i.name.clone(), kind(&i.kind))).collect();
+                    if got != want {
+                        fs.push(Finding {
+                            sig: "import-list-after-edits".into(),
+                            detail: format!("after {:?} the import section should list {:?}, it lists {:?}", hist, want, got),
+                        });
+                    }
+                }
+            }
             if let (Some((plain, c0)), true) = (&self.plain, hist.iter().all(additive)) {
                 if let Ok(edited) = wmodel::decode(&out) {
                     let c1 = counts(&o.m);
@@ -662,6 +941,25 @@ impl<'a> Subject for EditSubject<'a> {
             }
             return (wmodel::fnv(&out), fs);
         }
+        if self.oracle == "C20" && self.neutral {
+            if hist.iter().all(feature_neutral) && wmodel::validate214(&out, wmodel::FeatureSet::DEFAULT).is_ok() {
+                let req = required_features(self.wasm);
+                // a declared segment that is needed to keep a ref.func target declared is filed under
+                // bulk memory by the validator although it belongs to reference types: tolerated when
+                // the module needs reference types anyway and every declared segment is a necessary one
+                let mut allowed = req;
+                if req & (1 << 5) != 0 && !has_unnecessary_declared_segment(&out) {
+                    allowed |= 1 << 4;
+                }
+                if let Err(e) = wmodel::validate214(&out, wmodel::FeatureSet(allowed)) {
+                    fs.push(Finding {
+                        sig: format!("edit-escalates-features:{}", crate::props::validity::norm_verr(&e)),
+                        detail: format!("a module that needs only {:?}, edited with operations that need no proposal of their own ({:?}), now also needs more: {}", wmodel::FeatureSet(req).names(), hist, e),
+                    });
+                }
+            }
+            return (wmodel::fnv(&out), fs);
+        }
         if self.oracle == "C20" {
             let has = self.wasm.len() > 8;
             // once gc ran the memory / table may be gone, and the model's AddData / AddElem fall back to passive segments
@@ -677,6 +975,36 @@ impl<'a> Subject for EditSubject<'a> {
                         sig: format!("mvp-edit-escalates:{}", crate::props::validity::norm_verr(&e)),
                         detail: format!("an MVP module edited with MVP-shaped operations {:?} no longer validates as MVP: {}", hist, e),
                     });
+                }
+            }
+            return (wmodel::fnv(&out), fs);
+        }
+        if self.oracle == "C06" {
+            // a history that ends in gc: compared with the same history without that gc, everything
+            // reachable from the roots is still there and what is kept is unchanged
+            if hist.last() == Some(&EOp::Gc) && wmodel::validate214(&out, wmodel::FeatureSet::DEFAULT).is_ok() {
+                let before = (|| -> Option<Vec<u8>> {
+                    let mut o2 = self.fresh().ok()?;
+                    for op in &hist[..hist.len() - 1] {
+                        apply_op(&mut o2, op);
+                    }
+                    Some(o2.m.emit_wasm())
+                })();
+                if let Some(before) = before {
+                    if let (Ok(a), Ok(b)) = (wmodel::decode(&before), wmodel::decode(&out)) {
+                        match wmodel::iso(&a, &b, wmodel::IsoMode::Gc) {
+                            Ok(maps) => {
+                                for (kind, detail) in crate::props::gcprops::reachable_lost(&a, &maps) {
+                                    fs.push(Finding { sig: format!("gc-removed-reachable:{}", kind), detail: format!("after the edit history {:?}: {}", hist, detail) });
+                                }
+                            }
+                            Err(ms) => {
+                                for mm in ms.into_iter().take(2) {
+                                    fs.push(Finding { sig: format!("gc-changed-kept-part:{}", mm.sig), detail: format!("after the edit history {:?}: {}", hist, mm.detail) });
+                                }
+                            }
+                        }
+                    }
                 }
             }
             return (wmodel::fnv(&out), fs);
@@ -746,7 +1074,8 @@ pub fn recheck(c: &Case) -> Vec<Violation> {
     recheck_as("C02", c)
 }
 pub fn recheck_as(oracle: &'static str, c: &Case) -> Vec<Violation> {
-    let s = EditSubject::new(&c.wasm, oracle);
+    let mut s = EditSubject::new(&c.wasm, oracle);
+    s.neutral = c.coords.starts_with("neutral:");
     let h = ops_from(&c.cfg["edits"]);
     match replay(&s, &h) {
         Ok((_, fs)) => fs.into_iter().map(|f| Violation::new(oracle, f.sig, f.detail, c)).collect(),
@@ -771,8 +1100,9 @@ pub fn run_model_as(oracle: &'static str, args: &Args, ev: &mut Ev) -> Vec<Viola
         _ => 4,
     };
     let bs = if oracle == "C20" { mvp_bases() } else { bases() };
-    let (res, _) = pmap(&bs, args.threads, None, |(_, wasm)| {
-        let s = EditSubject::new(wasm, oracle);
+    let (res, _) = pmap(&bs, args.threads, None, |(name, wasm)| {
+        let mut s = EditSubject::new(wasm, oracle);
+        s.neutral = name.starts_with("neutral:");
         explore(&s, depth)
     });
     let mut viol = vec![];
